@@ -109,6 +109,9 @@ func (ex *Exec) step(instr ssa.Instruction) {
 		ex.vc.DeclareFun("chancap", []Sort{SInt}, SInt)
 		ex.vc.Assume(ex.st.pc, Eq(app(SInt, "chancap", r), sc(ex.val(x.Size))), "")
 		ex.setReg(x, Sc{r})
+		ex.heapGet("ghost<closed>", ArrSort(SInt, SBool))
+		ex.hStore1("ghost<closed>", ArrSort(SInt, SBool), r, TFalse) // a new channel is open
+		ex.fireAnchors("makechan", "", []Value{ex.val(x.Size)}, nil, x.Pos())
 	case *ssa.MakeClosure:
 		fn := x.Fn.(*ssa.Function)
 		var free []Value
